@@ -818,6 +818,13 @@ func lmScenarios(prop string, thorough bool) []*lmScenario {
 			{"a", 3, n(1), 0, false, Burstable}, {"b", 3, n(1), 0, false, Guaranteed}, {"c", 4, n(2), TypeMaskPMEM, true, Burstable},
 			{"d", 6, n(2), TypeMaskPMEM, false, BestEffort}, {"e", 2, n(0), 0, false, Reservation}, {"f", 0, n(1), 0, false, BestEffort},
 		}, reallocs: []lmRealloc{{n(0), 0}, {0, TypeMaskPMEM}}})
+	// 6b. a CPU-only (memory-less) node whose closest memory is movable-only: requests affine to it alone
+	ml := [][]int{{10, 12, 21, 21}, {12, 10, 21, 21}, {21, 21, 10, 11}, {21, 21, 11, 10}}
+	add(&lmScenario{name: "memoryless+movable", nodes: []lmNode{{D, 4, true, "0-1"}, {D, 4, true, "2-3"}, {D, 0, true, "4-5"}, {D, 4, false, ""}}, dist: ml,
+		shapes: []lmShape{
+			{"a", 0, n(2), 0, false, BestEffort}, {"b", 4, n(2), 0, false, Burstable}, {"c", 3, n(0), 0, false, Guaranteed},
+			{"d", 2, n(2, 3), 0, false, Burstable}, {"e", 1, n(2), 0, false, Reservation}, {"f", 3, n(1), 0, false, Burstable},
+		}, reallocs: []lmRealloc{{n(3), 0}, {n(0), 0}}})
 	// 7/8. custom expansion orders
 	add(&lmScenario{name: "hier4-custom-all", custom: "all", nodes: []lmNode{{D, 4, true, "0"}, {D, 4, true, "1"}, {D, 4, true, "2"}, {D, 4, true, "3"}}, dist: hier,
 		shapes: []lmShape{
